@@ -173,6 +173,17 @@ def run(body, start_bb, env, call=None, max_steps=400, prog=None, depth=0, inlin
                 else:
                     raise Unrecognised("field projection on %r" % (v,))
                 continue
+            if isinstance(pr, dict) and "ci" in pr and isinstance(v, tuple) and v and v[0] == "slice" and not pr.get("from_end"):
+                if pr["ci"] < len(v[1]):
+                    v = v[1][pr["ci"]]
+                    continue
+                raise Unrecognised("constant index %d beyond the known prefix of %r" % (pr["ci"], v))
+            if isinstance(pr, dict) and "sub" in pr and isinstance(v, tuple) and v and v[0] == "slice" and pr.get("from_end") and pr.get("to") == 0:
+                rest = list(v[1][pr["sub"]:])
+                if len(v[1]) < pr["sub"]:
+                    raise Unrecognised("subslice beyond the known prefix")
+                v = v[2] if (not rest and v[2] is not None) else ("slice", rest, v[2])
+                continue
             raise Unrecognised("projection %r" % (pr,))
         return v
 
@@ -187,10 +198,14 @@ def run(body, start_bb, env, call=None, max_steps=400, prog=None, depth=0, inlin
                 return int(c["int"])
             if isinstance(c.get("tyconst"), dict) and "int" in c["tyconst"]:
                 return int(c["tyconst"]["int"])
+            if "fn" in c:
+                return ("fnitem", c["fn"])
             if c.get("zst"):
                 return ("tuple", [])
             if "str" in c:
                 return Sym("str:" + c["str"])
+            if isinstance(c.get("strs"), list):
+                return ("vec", tuple(Sym("str:" + x) if isinstance(x, str) else Sym("const") for x in c["strs"]))
             return Sym("const")
         raise Unrecognised("operand %r" % (op,))
 
@@ -201,10 +216,27 @@ def run(body, start_bb, env, call=None, max_steps=400, prog=None, depth=0, inlin
             return v != 0
         raise Unrecognised("branch on non-concrete value %r" % (v,))
 
+    can_return = getattr(body, "_can_return", None)
+    if can_return is None:
+        can_return = set(body.return_blocks())
+        work = list(can_return)
+        preds = {}
+        for i in range(len(body.blocks)):
+            for j in body.succ(i):
+                preds.setdefault(j, []).append(i)
+        while work:
+            x = work.pop()
+            for p_ in preds.get(x, []):
+                if p_ not in can_return:
+                    can_return.add(p_)
+                    work.append(p_)
+        body._can_return = can_return
     while True:
         steps += 1
         if steps > max_steps:
             raise Unrecognised("step limit (loop?)")
+        if bb not in can_return:
+            raise Unrecognised("PANIC: every continuation from here diverges (bb%d of %s)" % (bb, body.path))
         bl = body.blocks[bb]
         for s in bl["stmts"]:
             if s["k"] != "assign":
@@ -218,12 +250,18 @@ def run(body, start_bb, env, call=None, max_steps=400, prog=None, depth=0, inlin
                 v = place_val(rv["place"])
             elif k == "cast":
                 v = operand(rv["op"])
-                if rv["kind"] not in ("IntToInt",):
+                if rv["kind"] not in ("IntToInt",) and not rv["kind"].startswith("PointerCoercion(Unsize"):
                     raise Unrecognised("cast %s" % rv["kind"])
             elif k == "binop":
                 a, b = operand(rv["a"]), operand(rv["b"])
                 op = rv["op"]
-                if isinstance(a, (int, bool)) and isinstance(b, (int, bool)):
+                if isinstance(a, tuple) and a[:1] == ("atleast",) and isinstance(b, int) and not isinstance(b, bool):
+                    n = a[1]
+                    v = {"Eq": False if b < n else None, "Ne": True if b < n else None, "Ge": True if b <= n else None, "Gt": True if b < n else None,
+                         "Lt": False if b <= n else None, "Le": False if b < n else None}.get(op)
+                    if v is None:
+                        raise Unrecognised("comparison %s of an unknown length (>= %d) with %d" % (op, n, b))
+                elif isinstance(a, (int, bool)) and isinstance(b, (int, bool)):
                     a, b = int(a), int(b)
                     v = {"Eq": a == b, "Ne": a != b, "Lt": a < b, "Le": a <= b, "Gt": a > b, "Ge": a >= b,
                          "BitAnd": a & b, "BitOr": a | b, "BitXor": a ^ b}.get(op)
@@ -240,6 +278,12 @@ def run(body, start_bb, env, call=None, max_steps=400, prog=None, depth=0, inlin
                     v = (s_ if c_ else False) if op == "BitAnd" else (True if c_ else s_)
                 else:
                     raise Unrecognised("binop %s on %r, %r" % (op, a, b))
+            elif k == "unop" and rv["op"] == "PtrMetadata":
+                a = operand(rv["a"])
+                if isinstance(a, tuple) and a and a[0] == "slice":
+                    v = len(a[1]) if a[2] is None else ("atleast", len(a[1]))
+                else:
+                    raise Unrecognised("length of %r" % (a,))
             elif k == "unop":
                 a = operand(rv["a"])
                 if rv["op"] == "Not" and isinstance(a, (bool, int)):
@@ -254,6 +298,8 @@ def run(body, start_bb, env, call=None, max_steps=400, prog=None, depth=0, inlin
                     v = ("discr-of", pv[1])
                 else:
                     raise Unrecognised("discriminant of %r" % (pv,))
+            elif k == "agg" and rv["agg"] == "array":
+                v = ("array", [operand(o) for o in rv["ops"]])
             elif k == "agg" and rv["agg"] == "tuple":
                 v = ("tuple", [operand(o) for o in rv["ops"]])
             elif k == "agg" and rv["agg"] == "adt":
@@ -310,7 +356,7 @@ def run(body, start_bb, env, call=None, max_steps=400, prog=None, depth=0, inlin
                 raise Unrecognised("call destination with projection")
             env[t["dest"]["l"]] = v
             if t["target"] is None:
-                raise Unrecognised("diverging call")
+                raise Unrecognised("PANIC: diverging call to %s" % name)
             bb = t["target"]
         elif k == "drop":
             bb = t["target"]
